@@ -19,12 +19,8 @@ NodeSet(n) == {Tokens[i] : i \in 1..n}
 \* all DAGs per node count, computed once (constant level; "@@ <<>>" makes TLC store the function explicitly)
 DAGTab == [k \in 1..MaxN |-> {G : G \in AllDAGs(NodeSet(k))}] @@ <<>>     \* {G : G \in ..}: an explicit set, not a lazy filter
 
-VARIABLES n, E, ph
-vars == <<n, E, ph>>
-\* ph = 0 -> 1: the invariants do their (heavy) work on the ph = 1 states, which TLC's workers evaluate in parallel
-Init == n \in 1..MaxN /\ E \in DAGTab[n] /\ ph = 0
-Visit == ph = 0 /\ ph' = 1 /\ UNCHANGED <<n, E>>
-Next == Visit
+VARIABLES n, E, ph, cls
+vars == <<n, E, ph, cls>>
 
 \* DagLib!IEquivalent(G, H) is by definition Skeleton(G) = Skeleton(H) /\ VStructs(G) = VStructs(H).  The printed class
 \* unfolds it with G's skeleton / v-structures computed once and a cheap edge-count guard first (equal skeletons have
@@ -35,16 +31,21 @@ Class(k, G) == LET c == Cardinality(G)
                IN {G2 \in DAGTab[k] : Cardinality(G2) = c /\ Skeleton(G2) = sk /\ VStructs(G2) = vs}
 Families(N, G) == {[v |-> v, ps |-> Pa(G, v)] : v \in N}
 
+\* ph = 0 -> 1: Visit computes the equivalence class of E (the heavy part; successor states are computed by TLC's workers
+\* in parallel, initial states are not) and the invariants examine the ph = 1 states
+Init == n \in 1..MaxN /\ E \in DAGTab[n] /\ ph = 0 /\ cls = {}
+Visit == ph = 0 /\ ph' = 1 /\ cls' = Class(n, E) /\ UNCHANGED <<n, E>>
+Next == Visit
+
+BDs == [t |-> "bds", en |-> 1, ed |-> 1]
 ClassLemmas == ph = 1 =>
-    LET N == NodeSet(n)
-        C == Class(n, E) IN
-    /\ E \in C
-    /\ (n <= IEqMaxN => C = {G \in DAGTab[n] : IEquivalent(E, G)})
-    /\ \A G \in C : Cardinality(G) = Cardinality(E)
-    /\ \A G \in C : LogPrior([t |-> "bds", ess |-> 1], n, Cardinality(G)) = LogPrior([t |-> "bds", ess |-> 1], n, Cardinality(E))
-    /\ (n <= SameDSepMaxN => \A G \in DAGTab[n] : (G \in C) <=> SameDSep(N, E, G))
+    LET N == NodeSet(n) IN
+    /\ E \in cls
+    /\ (n <= IEqMaxN => cls = {G \in DAGTab[n] : IEquivalent(E, G)})
+    /\ \A G \in cls : Cardinality(G) = Cardinality(E)
+    /\ \A G \in cls : LogPrior(BDs, n, Cardinality(G)) = LogPrior(BDs, n, Cardinality(E))
+    /\ (n <= SameDSepMaxN => \A G \in DAGTab[n] : (G \in cls) <=> SameDSep(N, E, G))
 
 Emit == ph = 1 => PrintT(ToJson([n |-> n, edges |-> E, fams |-> Families(NodeSet(n), E),
-                       prior_bds |-> FJson(LogPrior([t |-> "bds", ess |-> 1], n, Cardinality(E))),
-                       cls |-> Class(n, E)]))
+                       prior_bds |-> FJson(LogPrior(BDs, n, Cardinality(E))), cls |-> cls]))
 =============================================================================
